@@ -108,7 +108,7 @@ class ClipFam(Family):
     def gen(self, rng):
         c = {"fam": self.name, "rx": rng.choice([0, 1, 1, 2, 3, 4]), "dtype": rng.choice([F32, F32, F32, "int32", "float64"]),
              "origin": rng.choice(["init", "init", "cnode"]), "extra": rng.random() < 0.08,
-             "infer": rng.random() > 0.06, "old": False}
+             "infer": rng.random() > 0.2, "old": False, "ux": rng.random() < 0.3}
         for k in "ab":
             c[k] = self.gen_bound(rng)
         if self.name == "clipclip":
@@ -127,18 +127,25 @@ class ClipFam(Family):
 
     def corpus(self):
         base = {"rx": 1, "dtype": F32, "origin": "init", "extra": False, "infer": True, "old": False}
+        # commit c0ccb25: element type from the Clip input or from a constant bound of the *first* Clip; neither known -> no fire
+        u = dict(base, infer=False, ux=True)
         if self.name == "clipclip":
-            return [dict(base, fam="clipclip", a="c0", b="c1", c="c5", d="c10"),   # D2 witness (fixed: regression case)
+            return [dict(u, fam="clipclip", a="-", b="-", c="c1", d="c4"), dict(u, fam="clipclip", a="c0", b="-", c="-", d="c4"),
+                    dict(u, fam="clipclip", a="-", b="c5", c="-", d="-"), dict(base, fam="clipclip", a="-", b="-", c="c1", d="c4", infer=False),
+                    dict(u, fam="clipclip", a="-", b="-", c="c1", d="c4", infer=True)] + [dict(base, fam="clipclip", a="c0", b="c1", c="c5", d="c10"),   # D2 witness (fixed: regression case)
                     dict(base, fam="clipclip", a="c-3", b="c-1", c="c2", d="-"),
                     dict(base, fam="clipclip", a="-", b="c1", c="c5", d="c3"),
                     dict(base, fam="clipclip", a="c0", b="c1", c="c-1", d="c0", old=True),  # N2
                     dict(base, fam="clipclip", a="c0", b="c1", c="c-1", d="c5", infer=False)]
         if self.name == "reluclip":
-            return [dict(base, fam="reluclip", a="c-5", b="c-1"),                  # D1 witness (fixed: regression case)
+            return [dict(u, fam="reluclip", a="-", b="-"), dict(u, fam="reluclip", a="c-2", b="-"), dict(u, fam="reluclip", a="-", b="c3"),
+                    dict(base, fam="reluclip", a="c-5", b="c-1"),                  # D1 witness (fixed: regression case)
                     dict(base, fam="reluclip", a="-", b="c-2"),
                     dict(base, fam="reluclip", a="c-1", b="c1", old=True)]
         if self.name == "cliprelu":
-            return [dict(base, fam="cliprelu", a="c-5", b="c-1"), dict(base, fam="cliprelu", a="-", b="c3")]
+            return [dict(base, fam="cliprelu", a="-", b="-", infer=False), dict(base, fam="cliprelu", a="c-1", b="-", infer=False),
+                    dict(base, fam="cliprelu", a="-", b="c2", infer=False),
+                    dict(base, fam="cliprelu", a="c-5", b="c-1"), dict(base, fam="cliprelu", a="-", b="c3")]
         return [dict(base, fam="relurelu", a="-", b="-")]
 
     def build(self, c):
@@ -148,7 +155,12 @@ class ClipFam(Family):
         shape = rank_shape(np.random.RandomState(c["rx"]), c["rx"])
         shape = [2, 1, 3, 2, 3][5 - c["rx"]:] if c["rx"] else []
         consts = [parse_bound(c[k])[1] for k in "abcd" if k in c and parse_bound(c[k])[1] is not None] + [0]
-        hst.inp("x", dt, shape, gen=around_gen(consts, dt, shape))
+        if c.get("ux"):
+            # the pattern's `x` is an inner value: typed only when shape inference has run
+            hst.inp("x0", dt, shape, gen=around_gen(consts, dt, shape))
+            hst.node("Identity", ["x0"], ["x"])
+        else:
+            hst.inp("x", dt, shape, gen=around_gen(consts, dt, shape))
 
         def clip(src, lo, hi, out, pre):
             if c["old"]:
@@ -199,12 +211,13 @@ class ClipFam(Family):
         # opset < 11: the bounds are attributes; `node.inputs[1:]` is empty, i.e. every bound is absent for the rule
         parts = [self.name] + [f"{k}={'-' if c['old'] else c[k]}" for k in "abcd" if k in c]
         # which `node.inputs[0].dtype` are known: x is a typed graph input; the intermediate only after inference
+        xt = int(c["infer"] or not c.get("ux"))     # is the pattern's `x` typed: a graph input, or an inner value after inference
         if self.name == "clipclip":
-            parts += ["dt1=1", f"dt2={int(c['infer'])}"]
+            parts += [f"dt1={xt}", f"dt2={int(c['infer'])}"]
         elif self.name == "cliprelu":
             parts += [f"dt1={int(c['infer'])}"]      # first Clip's input is Relu's output
         else:
-            parts += ["dt1=1"]
+            parts += [f"dt1={xt}"]
         parts += [f"extra={int(c['extra'])}", f"old={int(c['old'])}"]
         return " ".join(parts)
 
@@ -223,6 +236,20 @@ class ClipFam(Family):
             else:
                 vals.append("-")
         return f"fire lo={vals[0]} hi={vals[1]}"
+
+    def counters(self, c, rec):
+        """c0ccb25: hosts whose first-Clip input is untyped, with / without a typed (constant) bound on that Clip."""
+        if self.name == "relurelu" or c["old"]:
+            return []
+        typed = c["infer"] if self.name == "cliprelu" else (c["infer"] or not c.get("ux"))
+        if typed:
+            return ["typed_input"]
+        firstb = [parse_bound(c[k])[0] for k in "ab"]
+        if all(k == "-" for k in firstb):
+            return ["untyped_input_no_bound"]
+        if all(k in "-c" for k in firstb):
+            return ["untyped_input_const_bound"]
+        return ["untyped_input_other"]
 
     def finding(self, c):
         if self.name == "relurelu":
@@ -691,8 +718,25 @@ class ReshapeFam(Family):
         names = iter("NMKL")
         return [next(names) if d == "N" else d for d in out]
 
-    def gen(self, rng):
-        k = rng.choice(["flatten", "flatten", "rr", "rr", "expand", "mat"])
+    p_pre = 0.2
+
+    def gen_pre(self, rng, c):
+        """A host for the same rule object that takes the *other* exit of `check`: for Reshape∘Reshape the empty-tensor /
+        `allowzero=1` exit (a real 0 stays in the fused shape) as often as the ordinary one."""
+        if c["kind"] != "rr":
+            for _ in range(30):
+                p = self.gen(rng)
+                if p["kind"] == c["kind"]:
+                    return p
+            return p
+        return self.gen(rng, kind="rr", want_zero=rng.random() < 0.8)
+
+    def p_pre_for(self, c):
+        # the conjunction history × opset boundary is generated deliberately
+        return 0.6 if c["kind"] == "rr" and c.get("opset", 18) < 14 else 0.2
+
+    def gen(self, rng, kind=None, want_zero=False):
+        k = kind or rng.choice(["flatten", "flatten", "rr", "rr", "expand", "mat"])
         if k == "flatten":
             x = self.gen_shape(rng) if rng.random() > 0.08 else None
             r = len(x) if x is not None else 3
@@ -701,13 +745,13 @@ class ReshapeFam(Family):
                     "run": bind(x, rng.choice([1, 2, 3])) if x is not None else [2, 3, 4][:r]}
         if k == "rr":
             x = [rng.choice([1, 2, 3, 4, 6]) for _ in range(rng.randint(1, 3))]
-            if rng.random() < 0.07:
+            if rng.random() < (0.9 if want_zero else 0.07):
                 x[rng.randrange(len(x))] = 0
             total = int(np.prod(x))
             mid = self.factor(rng, total)
             tgt = self.factor(rng, total)
             s2 = list(tgt)
-            az = 1 if rng.random() < 0.15 else 0
+            az = 1 if rng.random() < (0.9 if total == 0 and want_zero else 0.15) else 0
             q = rng.random()
             if q < 0.3 and s2:
                 s2[rng.randrange(len(s2))] = -1
@@ -719,8 +763,12 @@ class ReshapeFam(Family):
             if true_out is None:          # the original second Reshape would be invalid: not a host
                 s2, true_out = list(tgt), self.py_reshape(mid, tgt, 1)
                 az = 1
+            # opset boundary: `allowzero` exists from Reshape-14 on; below it neither Reshape carries the attribute
+            opset = rng.choice([18, 18, 13, 13, 21])
+            if az or total == 0 or 0 in mid:
+                opset = rng.choice([18, 21, 14])
             return {"fam": "reshape", "kind": "rr", "x": x, "mid": mid, "s2": s2, "az": az, "s2const": rng.random() > 0.07,
-                    "out": rng.choice(["none", "spec", "sym"]), "tgt": true_out, "extra": rng.random() < 0.06}
+                    "out": rng.choice(["none", "spec", "sym"]), "tgt": true_out, "extra": rng.random() < 0.06, "opset": opset}
         if k == "expand":
             x = self.gen_shape(rng, 1, 3, zero=0.05, sym=0.15)
             run = bind(x)
@@ -780,7 +828,14 @@ class ReshapeFam(Family):
                 {"fam": "reshape", "kind": "mat", "out": ["N", 0], "run": [3, 0], "const": False},                 # D16c2 witness
                 {"fam": "reshape", "kind": "flatten", "x": [2, 3, 4], "axis": 1, "out": "spec", "run": [2, 3, 4]},
                 {"fam": "reshape", "kind": "rr", "x": [2, 3], "mid": [3, 2], "s2": [0, 3], "az": 0, "s2const": True, "out": "none",
-                 "tgt": [3, 3], "extra": False}]
+                 "tgt": [3, 3], "extra": False},
+                # history × opset boundary: the rule object first fuses an empty-tensor pair keeping `allowzero=1`, then a pair at opset 13
+                {"fam": "reshape", "kind": "rr", "x": [2, 3], "mid": [3, 2], "s2": [6], "az": 0, "s2const": True, "out": "none",
+                 "tgt": [6], "extra": False, "opset": 13, "dflt": 1,
+                 "pre": [{"fam": "reshape", "kind": "rr", "x": [0, 6, 2], "mid": [3, 0], "s2": [0, 2], "az": 1, "s2const": True, "out": "none",
+                          "tgt": [0, 2], "extra": False, "opset": 18}]},
+                {"fam": "reshape", "kind": "rr", "x": [2, 3], "mid": [3, 2], "s2": [-1, 2], "az": 0, "s2const": True, "out": "spec",
+                 "tgt": [3, 2], "extra": False, "opset": 13}]
 
     @staticmethod
     def flatten_spec(x, axis):
@@ -806,10 +861,11 @@ class ReshapeFam(Family):
             hst.out("y", F32, out)
             return hst, [C.flatten_to_reshape_rule]
         if k == "rr":
+            hst.opset = c.get("opset", 18)
             hst.inp("x", F32, c["x"])
             hst.const("s1", np.array(c["mid"], dtype=np.int64), "init")
             hst.const("s2", np.array(c["s2"], dtype=np.int64), "init" if c["s2const"] else "input")
-            hst.node("Reshape", ["x", "s1"], ["t"], allowzero=1)
+            hst.node("Reshape", ["x", "s1"], ["t"], **({"allowzero": 1} if hst.opset >= 14 else {}))
             hst.node("Reshape", ["t", "s2"], ["y"], **({"allowzero": 1} if c["az"] else {}))
             hst.out("y", F32, self.rr_out(c))
             if c["extra"]:
@@ -868,6 +924,20 @@ class ReshapeFam(Family):
             return f"fire shape={ints(shp)}"
         az = attr_of(n, "allowzero")
         return f"fire shape={ints(shp)} az={'-' if az is None else az}"
+
+    def counters(self, c, rec):
+        out = []
+        if c["kind"] == "rr":
+            if c.get("opset", 18) < 14:
+                out.append("rr_opset13")
+            if c["az"] == 1 and 0 in c["s2"]:
+                out.append("rr_az1_zero_kept")
+            for p in c.get("pre") or []:
+                if p.get("kind") == "rr" and p["az"] == 1 and 0 in p["s2"] and p["s2const"] and not p["extra"]:
+                    out.append("rr_after_az1_zero_kept")
+                    if c.get("opset", 18) < 14:
+                        out.append("rr_opset13_after_az1_zero_kept")
+        return out
 
     def finding(self, c):
         # D6 (flatten with a static zero dim) is fixed in /repo (02f546a): the rule refuses; witness in the corpus
